@@ -132,6 +132,22 @@ func c01Gen(g *core.Gen, emit func(*p2Case)) {
 	for i, rc := range []scen.P2Config{{Sizes: []int{11, 6}, Slice: 4, Blocks: 3, Class: "uniq", Reused: true}, {Sizes: []int{20000, 17001}, Slice: 1000, Blocks: 3, Class: "uniq", G: 2, Reused: true}} {
 		genP2Deviations(g, rc, i == 0, 2-i, mk(rc, 1))
 	}
+	// sets with more recovery blocks than a set can have slices (32768) and with the most a set can have (65535): both
+	// files lost, every recovery file but one lost too - for each choice of the surviving file (its lowest exponent is
+	// 0, 1, 3, 7, ..., 32767)
+	for _, blocks := range []int{32770, 65535} {
+		bc := scen.P2Config{Sizes: []int{4, 3}, Slice: 4, Blocks: blocks, Class: "uniq"}
+		nrec := nRecFiles(blocks)
+		for keep := 0; keep < nrec; keep++ {
+			ds := []scen.Dmg{{Op: "del", F: 0}, {Op: "del", F: 1}}
+			for v := 0; v < nrec; v++ {
+				if v != keep {
+					ds = append(ds, scen.Dmg{Op: "delrec", F: v})
+				}
+			}
+			g.Emit(mk(bc, 1)(ds))
+		}
+	}
 	dup := scen.P2Config{Sizes: []int{9, 9}, Slice: 4, Blocks: 3, Class: "uniq", DupFile: true}
 	genP2Deviations(g, dup, true, 1, mk(dup, 1))
 	coll := scen.P2Config{Sizes: []int{27, 20}, Slice: 8, Blocks: 3, Class: "crccollide"}
